@@ -234,6 +234,12 @@ def menu(state):
     m.append(("insert", [L(new), L(new)], "new_twice"))
     m.append(("insert", [L(a), L(b)], "balanced_ends"))
     m.append(("remove", [L(a), L(b)], "balanced_ends"))
+    # the same requests in a tuple instead of a list
+    m.append(("insert", (L(new), L(new)), "new_twice_tuple"))
+    m.append(("iadd", (L(new),), "new_tuple"))
+    if ks[1:-1]:
+        m.append(("remove", (L(ks[1]),), "existing_tuple"))
+        m.append(("isub", (L(ks[1]),), "existing_tuple"))
     m.append(("insert", [], "empty"))
     m.append(("remove", [], "empty"))
     m.append(("insert", [L(new), L(b + 1)], "new_and_above"))
